@@ -23,7 +23,7 @@ WORKER = os.path.join(os.path.dirname(os.path.dirname(os.path.abspath(__file__))
 
 
 PROGRAMS = [f"{g}_{u}" for u in ("r_lit", "r_num", "c_pre", "ext", "cell") for g in ("G", "Series", "Wrapper")] + \
-    [f"{g}_{u}" for u in ("mos_n", "mos_p") for g in ("MosStack", "Series")] + ["long_scalar_names", "uncached_generator", "uncached_generator_direct", "tops_list", "tops_list_rev"]
+    [f"{g}_{u}" for u in ("mos_n", "mos_p") for g in ("MosStack", "Series")] + ["long_scalar_names", "set_valued_params", "uncached_generator", "uncached_generator_direct", "tops_list", "tops_list_rev"]
 
 
 def corpus():
@@ -50,6 +50,14 @@ def corpus():
     top3 = {"name": "Top", "sigs": [], "bundles": [{"n": "bb", "of": "BO", "port": False}],
             "insts": [{"n": "i", "of": {"k": "module", "name": "Inner"}, "conns": [[f"b{k}", dict(sref)] for k in (2, 4, 1, 3)]}]}
     out += [{"design": {"bundles": [bdef, bo], "modules": [inner, top3], "top": "Top"}, "style": s} for s in ("proc", "class")]
+    # ports of one instance whose names differ in case only, fed by one bundle (a key that folds case no longer tells them apart)
+    cnames = ["D", "d", "Dd", "dD", "dd"]
+    inner_c = {"name": "InnerC", "sigs": [], "bundles": [{"n": nm, "of": "B", "port": True} for nm in cnames],
+               "insts": [{"n": f"e{k}", "of": E, "conns": [["q", {"k": "bref", "root": nm, "path": ["x"]}], ["r", {"k": "bref", "root": nm, "path": ["y"]}]]} for k, nm in enumerate(cnames)]}
+    top_c = {"name": "Top", "sigs": [], "bundles": [{"n": "b", "of": "B", "port": False}],
+             "insts": [{"n": "i", "of": {"k": "module", "name": "InnerC"}, "conns": [[nm, {"k": "bundle", "n": "b"}] for nm in ("dd", "D", "dD", "d", "Dd")]},
+                       {"n": "I", "of": {"k": "module", "name": "InnerC"}, "conns": [[nm, {"k": "bundle", "n": "b"}] for nm in cnames]}]}
+    out += [{"design": {"bundles": [bdef], "modules": [inner_c, top_c], "top": "Top"}, "style": s} for s in ("proc", "gen")]
     # groups of port references with no declared signal, where several ports of one instance hang on the same reference: the implicit
     # signal's name must not depend on which of them is met first
     E4 = {"k": "leaf", "kind": ".E4", "ports": [{"n": p, "w": 1} for p in ("p", "q", "r", "w")], "params": [], "py": {"k": "ext", "name": "E4"}}
